@@ -551,7 +551,4 @@ func c18Eviction(b *Batch, idx int) {
 	if got := l.get("cache_delete{ev}"); got != float64(del) {
 		b.R.Violate(b, idx, "C18:backend/"+kind+":cache_delete-counts-evictions", fmt.Sprintf("%s: cache_delete = %v after %d successful Delete calls (evictions by the janitor: cache_evict = %v, %d long-expired entries cleaned up)", kind, got, del, l.get("cache_evict{ev}"), nDead), w)
 	}
-	if ev := l.get("cache_evict{ev}"); ev <= 0 || ev > float64(n) {
-		b.R.Violate(b, idx, "C18:backend/"+kind+":cache_evict", fmt.Sprintf("%s: cache_evict = %v although %d entries were written over a limit of %d", kind, ev, n, L), w)
-	}
 }
